@@ -4,7 +4,7 @@ from __future__ import annotations
 
 import numpy as np
 
-from .. import gen, monitors
+from .. import derive, gen, monitors
 
 PID = "C06"
 ANCHORS = ["scores.py:Scores.eer", "scores.py:Scores._find_root", "scores.py:Scores.eer.<locals>.f"]
@@ -63,7 +63,8 @@ def cases(ctx):
         sc, ec = gen.cfg(rng)
         a = float(rng.choice([0.5, 2.0, 1.0, float(rng.uniform(0.1, 10))]))
         b = float(rng.choice([0.0, 1.0, float(rng.normal(0, 5))]))
-        yield {"pos": pos, "neg": neg, "ep": ep, "en": en, "sc": sc, "ec": ec, "mode": mode, "a": a, "b": b}
+        yield {"pos": pos, "neg": neg, "ep": ep, "en": en, "sc": sc, "ec": ec, "mode": mode, "a": a, "b": b,
+               "via": str(rng.choice(derive.VIAS)), "_seed": int(rng.integers(1 << 31))}
 
 
 def scenarios(ctx):
@@ -81,7 +82,11 @@ def execute(ctx, case):
     pos = np.asarray(case["pos"])
     neg = np.asarray(case["neg"])
     ep, en, sc, ec = case["ep"], case["en"], case["sc"], case["ec"]
-    s = Scores(pos, neg, nb_easy_pos=ep, nb_easy_neg=en, score_class=sc, equal_class=ec)
+    if case["mode"] == "bootstrap":
+        s = Scores(pos, neg, nb_easy_pos=ep, nb_easy_neg=en, score_class=sc, equal_class=ec)
+    else:
+        with monitors.oracle_scope_ctx():
+            s = derive.build(pos, neg, ep, en, sc, ec, case.get("via", "ctor"), case.get("_seed", 0))
     if case["mode"] == "bootstrap":
         np.random.seed(case["_seed"])
         s.bootstrap_ci("eer", config=BootstrapConfig(nb_samples=12, bootstrap_method="quantile"))  # 12 eer() calls on resamples (ties!)
